@@ -384,6 +384,10 @@ pub fn check(tier: Tier) -> i32 {
         strs.push((k.clone(), k));
     }
     strs.push((format!("a{}", " ".repeat(1100)), format!("a{}", " ".repeat(1100))));
+    // document-marker and directive look-alikes inside strings
+    for w in ["--- ", "... ", "---", "...", "a --- b", "--- x", "... x", "%YAML 1.2", "- a", "? a", ": a", "# a", "a: b # c", "&a *a !t"] {
+        strs.push((w.to_string(), w.to_string()));
+    }
     let ds = if tier == Tier::Quick { 1 } else { 2 };
     let (acc, done) = par_blocks(strs.len() as u64, &budget, |b, acc| {
         let (sp, dec) = &strs[b as usize];
